@@ -144,9 +144,13 @@ func runC31(r *lib.Run) {
 				bad = true
 				cl := "merge-differs-from-model"
 				if variant == "unknown+ignore" {
-					cl = "merge-differs-from-model:ignore-extra-fields"
+					cl = "merge-differs-from-model"
 				}
-				r.Violate(cl, featOf(d), d.String(), w)
+				note := ""
+				if l := model.Leaves[d.Path]; l != nil {
+					note = cfg.KeyNote(l.Elems)
+				}
+				r.Violate(cl, featOf(d)+note, d.String(), w)
 			}
 			if !bad {
 				r.Hit("merged-ok:" + variant)
